@@ -35,6 +35,25 @@
   * pointer identity with the package-level singleton `nilLeaf` (`n == nilLeaf`) ↦ "is a leaf
     holding nil": the value model cannot tell the singleton from another nil leaf (Merge.lean says
     the same about `hasValue`).
+  * `map[string]dom.Leaf` (what `Flatten` returns) ↦ `LeafMap`, `map[string]dom.ContainerBuilder` (the layers of an
+    overlay document) ↦ `ContMap`: association lists like `Container`; `m[k] = v` is `AMap.insert`, `m[k]` is
+    `AMap.get?` (nil = none).
+  * a function-valued parameter (visitor, predicate) ↦ a Lean function into `Go.Res` (it may panic); the
+    equivalence theorems quantify over it.
+  * on the codec side (whitelist flag `Plain`: dom/codec.go's encoders, AsMap, AsSlice) `interface{}` ↦ `Val`,
+    `[]interface{}` ↦ `List Val`, `map[string]interface{}` ↦ `List (String × Val)`; everywhere else `interface{}` is a
+    leaf's value (`Scalar`).
+  * `Equals` / `Clone` / `SameAs` called through the `dom.Node` interface ↦ the GENERATED method tables
+    `FuncsDom.Equals` / `Clone` / `SameAs` (extract/translate_dispatch.go), proved equal to the hand-written `equals`
+    / `clone` / `sameAs` in YtkProps/C05.lean; `Child`, `Lookup` called through the `dom.Container` interface stay the
+    primitives `GoDom.child` / `GoDom.lookup` below — the translated `(*containerImpl).Child` / `Lookup` are proved
+    equal to them in YtkProps/C02.lean.
+  * TRUSTED primitives added with the second extension (each a one-liner below): `mkLeaf`, `ensureChildren`,
+    `asContainer?`, `asLeaf?`, `LeafMap` / `newLeafMap` / `leafMapSet`, `ContMap` / `contMapGet`, `setItemAt`,
+    `makePlainList` / `plainListSet` / `newPlainMap` / `plainMapSet`, `splitOnChar` / `stringsSplit1`,
+    `stringsContains`, `hasSuffix`, `anyString?`, `reIdxSuffix` / `reIdxSuffixFind` (over the model's `stripIdx`).
+    No longer only trusted: `append`, `set`, `remove` (= `listAppend`, `listSet`, `remove`) are proved equal to the
+    translation of `ListBuilder.Append` / `Set` and `ContainerBuilder.Remove` in YtkProps/C03.lean.
   * `uint(i)` ↦ `i.toNat` and `int(math.Max(float64(a), float64(b)))` ↦ `max a b`: exact for
     0 ≤ i < 2^53 (GoPrelude: `int` is unbounded, wrap-around and float rounding are not modelled).
 -/
@@ -77,6 +96,14 @@ def asLeaf : Node → Go.Res Leaf
 def asList? : Node → Option DList
   | .list l => some l
   | _ => none
+/-- `c, ok := n.(dom.Container)` -/
+def asContainer? : Node → Option Container
+  | .cont c => some c
+  | _ => none
+/-- `l, ok := n.(dom.Leaf)` -/
+def asLeaf? : Node → Option Leaf
+  | .leaf s => some s
+  | _ => none
 
 /-- a method call on a possibly-nil interface value: nil receiver panics -/
 def nonNil {α : Type} (n : Option α) : Go.Res α := Go.deref n
@@ -104,16 +131,20 @@ def items (l : DList) : List Node := l
 def size (l : DList) : Int := l.length
 /-- `l.items` of a `*listImpl` -/
 def setItems (_ : DList) (xs : List Node) : DList := xs
-/-- `leaf.Value()` -/
+/-- `leaf.Value()`; also `l.value` of a `*leaf` -/
 def value (s : Leaf) : Any := s
+/-- `&leaf{value: v}` -/
+def mkLeaf (v : Any) : Leaf := v
 /-- `cmp.Equal(a, b)` on two leaf values (NaN-free, −0-free scalars: DESIGN section 7, item 5) -/
 def cmpEqual (a b : Any) : Bool := a == b
-/-- `x.Equals(y)` where it is NOT the function being translated: the hand-written `equals` -/
+/-- `x.Equals(y)` as the hand-written `equals` (reference of `Equals_generated_eq_model`; the translator
+    maps interface calls `v.Equals(o)` / `v.Clone()` to the GENERATED dispatchers `Equals` / `Clone` of
+    Generated/FuncsDom.lean, see extract/translate_dispatch.go) -/
 def equals (x : Node) (y : Option Node) : Bool :=
   match y with
   | some y => Ytk.equals x y
   | none => false
-/-- `x.Clone()` where it is NOT the function being translated: the hand-written `clone` -/
+/-- `x.Clone()` as the hand-written `clone` (reference of `Clone_generated_eq_model`) -/
 def clone (x : Node) : Node := Ytk.clone x
 
 /-! ## Go maps `map[string]dom.Node` -/
@@ -128,6 +159,39 @@ def mapGet (m : Container) (k : String) : Option Node := AMap.get? m k
 def mapDelete (m : Container) (k : String) : Container := AMap.erase m k
 /-- `r.children = m` -/
 def setChildren (_ : Container) (m : Container) : Container := m
+/-- `c.ensureChildren()` (allocates the map when it is nil: a nil map and an empty map are the same
+    association list) -/
+def ensureChildren (c : Container) : Container := c
+
+/-! ## Go maps `map[string]dom.Leaf` (the result of `Flatten`) -/
+
+/-- `map[string]dom.Leaf`: the association list, iterated in key order like every Go map here -/
+abbrev LeafMap := List (String × Leaf)
+/-- `make(map[string]Leaf)` -/
+def newLeafMap : LeafMap := []
+/-- `m[k] = leaf` -/
+def leafMapSet (m : LeafMap) (k : String) (v : Leaf) : LeafMap := AMap.insert m k v
+
+/-! ## Go maps `map[string]dom.ContainerBuilder` (the layers of an overlay document) -/
+
+/-- `map[string]dom.ContainerBuilder`: an association list (any order; only looked up) -/
+abbrev ContMap := List (String × Container)
+/-- `m[k]` (nil = none) -/
+def contMapGet (m : ContMap) (k : String) : Option Container := AMap.get? m k
+
+/-! ## plain Go values on the codec side (functions with the whitelist flag `Plain`): `interface{}` ↦ `Val`,
+    `[]interface{}` ↦ `List Val`, `map[string]interface{}` ↦ the association list; the conversions to `interface{}`
+    are the constructors `.arr` / `.obj`, a leaf's `Value()` is `.sc` -/
+
+/-- `make([]interface{}, n)`: n nil values -/
+def makePlainList (n : Int) : List Val := List.replicate n.toNat Val.null
+/-- `xs[i] = v` on a slice the function made itself: panics unless 0 ≤ i < len(xs) -/
+def plainListSet (xs : List Val) (i : Int) (v : Val) : Go.Res (List Val) :=
+  if 0 ≤ i ∧ i.toNat < xs.length then .ok (xs.set i.toNat v) else .panic
+/-- `map[string]interface{}{}` -/
+def newPlainMap : List (String × Val) := []
+/-- `m[k] = v` -/
+def plainMapSet (m : List (String × Val)) (k : String) (v : Val) : List (String × Val) := AMap.insert m k v
 
 /-! ## builders (functional updates) -/
 
@@ -141,11 +205,42 @@ def set (l : DList) (i : Nat) (x : Node) : DList := listSet l i x
 def addValue (c : Container) (name : String) (v : Node) : Container := Ytk.add c name v
 /-- `c.Remove(name)` -/
 def remove (c : Container) (name : String) : Container := Ytk.remove c name
+/-- `l.items[i] = x` (Go slice element assignment on the builder's own slice): panics unless i < len -/
+def setItemAt (l : DList) (i : Nat) (x : Node) : Go.Res DList := if i < l.length then .ok (l.set i x) else .panic
 /-- `dom.LeafNode(v)` -/
 def leafNode (v : Any) : Node := .leaf v
 
 /-- `slices.Reverse(xs)` on a local slice -/
 def slicesReverse {α : Type} (xs : List α) : List α := xs.reverse
+
+/-! ## strings -/
+
+/-- `strings.Split(s, sep)` on characters, for a ONE-character separator: always at least one component -/
+def splitOnChar (sep : Char) : List Char → List (List Char)
+  | [] => [[]]
+  | c :: cs =>
+    match splitOnChar sep cs with
+    | [] => [[c]]
+    | h :: t => if c = sep then [] :: h :: t else (c :: h) :: t
+
+/-- `strings.Split(s, sep)` for a constant one-character separator (the translator rejects any other) -/
+def stringsSplit1 (s : String) (sep : Char) : List String := (splitOnChar sep s.toList).map String.ofList
+
+/-- the package-level regexp `\[\d+]$` (listPathRe): `MatchString(s)` — the text ends with `[`, one or more ASCII
+    digits, `]` (the model's `stripIdx` recognises exactly this group) -/
+def reIdxSuffix (s : String) : Bool := (stripIdx s.toList).isSome
+/-- `listPathRe.FindStringIndex(s)`: nil, or [start, end] of that trailing group (end = len(s), in characters) -/
+def reIdxSuffixFind (s : String) : List Int :=
+  match stripIdx s.toList with
+  | some (p, _) => [(p.length : Int), (s.toList.length : Int)]
+  | none => []
+
+/-- `strings.Contains(s, sub)` (= `strings.Index(s, sub) >= 0`) -/
+def stringsContains (s sub : String) : Bool := Go.stringsIndex s sub != -1
+/-- `strings.HasSuffix(s, suf)` -/
+def hasSuffix (s suf : String) : Bool := suf.toList.reverse.isPrefixOf s.toList.reverse
+/-- `x, ok := v.(string)` on a leaf's value: the model's scalars carry their Go type name -/
+def anyString? (v : Any) : Option String := if v.ty == "string" then some v.text else none
 
 /-! ## numbers -/
 
